@@ -8,8 +8,11 @@
 //! Phases: corpus → complete sweeps (all u16 codes; all decimal id strings with variants; all strings of length
 //! ≤ L over the 20-symbol significant alphabet, checksummed per block, bisected on mismatch) → grammar-generated
 //! formats → raw/mutated strings → value wrapping.
-//! TODO(file level): formats embedded in generated xlsx/xls/xlsb files with shuffled style tables and both date
-//! systems (needs the file writers of C01/C02/C03); D15 and D22 belong there.
+//! File level (public API only): generated xlsx / xlsb / xls workbooks (shared writers `xlsxw`, `xlsbw`, `xlsw`) whose
+//! style tables carry grammar-generated custom formats, built-in ids, redefined and doubly defined ids in shuffled
+//! order, both date systems, numbers in every encoding the writers offer (xlsx n / cached formula value; xlsb Real,
+//! RK float, RK int, FmlaNum; xls NUMBER, RK float, RK int, MULRK, FORMULA); each cell read back must be a DateTime of
+//! the right flavour with the value and the date system unchanged exactly when the XF's format is a date format.
 use calamine::verif_hooks::formats::{
     builtin_format_by_code, builtin_format_by_id, detect_custom_number_format, format_excel_f64, format_excel_i64, CellFormat,
 };
@@ -434,6 +437,9 @@ impl Out {
     fn count(&mut self, k: &str) {
         *self.counts.entry(k.into()).or_insert(0) += 1;
     }
+    fn add_n(&mut self, k: &str, n: u64) {
+        *self.counts.entry(k.into()).or_insert(0) += n;
+    }
     fn merge_into(self, rep: &mut Report) {
         merge(vec![self], rep)
     }
@@ -611,6 +617,13 @@ fn check_raw(text: &str, drv: &mut Driver, out: &mut Out) {
     let model = drv.ask(&input);
     let imp = impl_detect(text);
     let parsed = parse_format(text).filter(|f| f.wf());
+    if let Some(f) = &parsed {
+        if imp != model || imp != f.classify() {
+            out.count("raw_in_grammar");
+            check_gram(f, drv, out, true);
+            return;
+        }
+    }
     let sig = parsed.as_ref().map(|f| f.failure_class()).unwrap_or_else(|| "scanner:raw".into());
     let shown = format!("{input}   [text: {text}]");
     if imp != model {
@@ -980,6 +993,310 @@ fn gen_raw(rng: &mut Rng) -> String {
 
 // ------------------------------------------------------------------------------------------------
 
+// ------------------------------------------------------------------------------------------------
+// file level: formats embedded in the style tables of generated xlsx / xlsb / xls workbooks
+// ------------------------------------------------------------------------------------------------
+
+#[derive(Clone, Debug)]
+struct StyleCase {
+    kind: &'static str, // "xlsx" | "xlsb" | "xls"
+    /// custom definitions in file order (id, format); the same id may occur twice (the last one counts)
+    defs: Vec<(u16, Fmt)>,
+    /// format id of every cell XF; XF 0 is always General
+    xfs: Vec<u16>,
+    date1904: bool,
+    seed: u64,
+}
+
+const FILE_VALUES: [f64; 8] = [44197.0, 0.5, 44197.75, 1.0, 60.0, 100000.25, -3.5, 0.0];
+
+impl StyleCase {
+    fn wire(&self) -> String {
+        let defs = if self.defs.is_empty() {
+            "-".to_string()
+        } else {
+            self.defs.iter().map(|(id, f)| format!("{id}={}", f.wire())).collect::<Vec<_>>().join("|")
+        };
+        let xfs = self.xfs.iter().map(|x| x.to_string()).collect::<Vec<_>>().join(",");
+        format!("file {} {} {} {} {}", self.kind, self.seed, self.date1904 as u8, defs, xfs)
+    }
+    fn from_wire(w: &[&str]) -> Option<StyleCase> {
+        if w.len() != 6 || w[0] != "file" {
+            return None;
+        }
+        let kind = match w[1] {
+            "xlsx" => "xlsx",
+            "xlsb" => "xlsb",
+            "xls" => "xls",
+            _ => return None,
+        };
+        let mut defs = vec![];
+        if w[4] != "-" {
+            for d in w[4].split('|') {
+                let (id, g) = d.split_once('=')?;
+                defs.push((id.parse().ok()?, Fmt::from_wire(g)?));
+            }
+        }
+        let xfs = w[5].split(',').map(|x| x.parse().ok()).collect::<Option<Vec<u16>>>()?;
+        Some(StyleCase { kind, defs, xfs, date1904: w[3] == "1", seed: w[2].parse().ok()? })
+    }
+    /// the class the property assigns to format id `id`; None = no expectation (see the rule string)
+    fn expected(&self, id: u16) -> Option<&'static str> {
+        match self.defs.iter().rev().find(|d| d.0 == id) {
+            Some((_, f)) => {
+                if !f.wf() || f.render().is_empty() {
+                    return None;
+                }
+                let c = f.classify();
+                let b = documented_class(id as u32);
+                if self.kind == "xlsb" && b != "Other" && b != c {
+                    return None; // a built-in date id redefined as something else: xlsb documents built-in first
+                }
+                Some(c)
+            }
+            None => Some(documented_class(id as u32)),
+        }
+    }
+    fn model_request(&self) -> String {
+        let defs = if self.defs.is_empty() {
+            "-".to_string()
+        } else {
+            self.defs.iter().map(|(id, f)| format!("{id}:{}", hex(f.render().as_bytes()))).collect::<Vec<_>>().join(",")
+        };
+        format!("styles {} {} {}", self.kind, defs, self.xfs.iter().map(|x| x.to_string()).collect::<Vec<_>>().join(","))
+    }
+    /// the workbook bytes and, per XF index, the expected numeric value of each cell written in row = XF index
+    fn build(&self) -> (Vec<u8>, Vec<Vec<f64>>) {
+        use verif_harness::{xlsbw, xlsw, xlsxw};
+        let mut rng = Rng::new(self.seed);
+        let mut expect: Vec<Vec<f64>> = vec![];
+        match self.kind {
+            "xlsx" => {
+                let mut book = xlsxw::XlsxBook::new();
+                book.date1904 = match (self.date1904, rng.chance(1, 2)) {
+                    (true, _) => Some(true),
+                    (false, true) => Some(false),
+                    (false, false) => None,
+                };
+                book.num_fmts = self.defs.iter().map(|(id, f)| (*id as u32, f.render())).collect();
+                book.cell_xfs = self.xfs.iter().map(|x| *x as u32).collect();
+                let mut sh = xlsxw::XlsxSheet::new("S");
+                for i in 0..self.xfs.len() {
+                    let v0 = *rng.pick(&FILE_VALUES);
+                    let v1 = *rng.pick(&FILE_VALUES);
+                    sh.set(i as u32, 0, xlsxw::XCell::num(&format!("{v0}")).with_style(i as u32));
+                    sh.set(i as u32, 1, xlsxw::XCell::num(&format!("{v1:e}")).with_style(i as u32).with_formula("1+1"));
+                    expect.push(vec![v0, v1]);
+                }
+                book.sheets.push(sh);
+                let mut layout = xlsxw::Layout::random(&mut rng);
+                layout.pct_noise = 0;
+                (book.build(&layout).bytes, expect)
+            }
+            "xlsb" => {
+                let mut book = xlsbw::XlsbBook::new();
+                book.date1904 = self.date1904;
+                book.fmts = self.defs.iter().map(|(id, f)| (*id, f.render())).collect();
+                book.xfs = Some(self.xfs.clone());
+                book.framing = if rng.chance(1, 2) { xlsbw::Framing::Minimal } else { xlsbw::Framing::Random(rng.next()) };
+                let mut sh = xlsbw::XlsbSheet::new("S");
+                for i in 0..self.xfs.len() {
+                    let v0 = *rng.pick(&FILE_VALUES);
+                    let v1 = *rng.pick(&FILE_VALUES);
+                    let v2 = *rng.pick(&FILE_VALUES);
+                    let n3 = *rng.pick(&[44197i32, 0, 1, -7, 36526, 59, 61]);
+                    let d100 = rng.chance(1, 3);
+                    sh.set(i as u32, 0, xlsbw::BVal::real(v0)).style = i as u32;
+                    let bits = v1.to_bits() & 0xFFFF_FFFC_0000_0000;
+                    sh.set(i as u32, 1, xlsbw::BVal::rk_float(bits, false)).style = i as u32;
+                    let c = sh.set(i as u32, 2, xlsbw::BVal::real(v2));
+                    c.style = i as u32;
+                    c.fmla = Some(xlsbw::Fmla::trivial());
+                    sh.set(i as u32, 3, xlsbw::BVal::rk_int(n3, d100)).style = i as u32;
+                    expect.push(vec![v0, f64::from_bits(bits), v2, if d100 { n3 as f64 / 100.0 } else { n3 as f64 }]);
+                }
+                book.sheets.push(sh);
+                (book.to_bytes(), expect)
+            }
+            _ => {
+                let mut book = xlsw::XlsBook::new();
+                book.date1904 = self.date1904;
+                book.formats = self.defs.iter().map(|(id, f)| (*id, f.render())).collect();
+                book.xfs = self.xfs.clone();
+                let mut sh = xlsw::XlsSheet::new("S");
+                for i in 0..self.xfs.len() {
+                    let xf = i as u16;
+                    let v0 = *rng.pick(&FILE_VALUES);
+                    let v1 = *rng.pick(&FILE_VALUES);
+                    let v2 = *rng.pick(&FILE_VALUES);
+                    let n3 = *rng.pick(&[44197i32, 0, 1, -7, 36526, 59, 61]);
+                    let n4 = *rng.pick(&[4419775i32, 50, 100, 6000]);
+                    let bits = v1.to_bits() & 0xFFFF_FFFC_0000_0000;
+                    let v1t = f64::from_bits(bits);
+                    let mut cell = |col: u16, v: xlsw::CellV| {
+                        let mut c = xlsw::XlsCell::new(i as u16, col, v);
+                        c.xf = xf;
+                        sh.cells.push(c);
+                    };
+                    cell(0, xlsw::CellV::Number(v0));
+                    cell(1, xlsw::CellV::Rk(xlsw::rk_float(v1t, false).expect("rk float")));
+                    cell(2, xlsw::CellV::Formula { rgce: xlsw::rgce_int(1), cached: xlsw::Cached::Num(v2) });
+                    cell(3, xlsw::CellV::Rk(xlsw::rk_int(n3, false)));
+                    cell(4, xlsw::CellV::MulRk(vec![(xf, xlsw::rk_int(n4, true)), (xf, xlsw::rk_int(n3, false))]));
+                    expect.push(vec![v0, v1t, v2, n3 as f64, n4 as f64 / 100.0, n3 as f64]);
+                }
+                book.sheets.push(sh);
+                (book.to_bytes(&mut rng), expect)
+            }
+        }
+    }
+    /// open the workbook with calamine and return the cells of sheet "S" as (row, col) → Data
+    fn read(&self, bytes: Vec<u8>) -> Result<calamine::Range<Data>, String> {
+        use calamine::{Reader, Xls, Xlsb, Xlsx};
+        let cur = std::io::Cursor::new(bytes);
+        let r = guarded(|| -> Result<calamine::Range<Data>, String> {
+            match self.kind {
+                "xlsx" => Xlsx::new(cur).map_err(|e| format!("open: {e}"))?.worksheet_range("S").map_err(|e| format!("range: {e}")),
+                "xlsb" => Xlsb::new(cur).map_err(|e| format!("open: {e}"))?.worksheet_range("S").map_err(|e| format!("range: {e}")),
+                _ => Xls::new(cur).map_err(|e| format!("open: {e}"))?.worksheet_range("S").map_err(|e| format!("range: {e}")),
+            }
+        });
+        match r {
+            Ok(x) => x,
+            Err(p) => Err(format!("panic: {p}")),
+        }
+    }
+}
+
+/// canonical text of a numeric cell as read / as expected
+fn canon_cell(d: Option<&Data>) -> String {
+    match d {
+        Some(Data::Int(v)) => format!("N:{}", (*v as f64).to_bits()),
+        Some(Data::Float(v)) => format!("N:{}", v.to_bits()),
+        Some(d @ Data::DateTime(_)) => canon_data(d, None),
+        Some(other) => format!("?:{other:?}"),
+        None => "absent".into(),
+    }
+}
+fn expect_cell(class: &str, v: f64, d1904: bool) -> String {
+    match class {
+        "DateTime" => format!("D:{}:dt:{}", v.to_bits(), d1904 as u8),
+        "TimeDelta" => format!("D:{}:td:{}", v.to_bits(), d1904 as u8),
+        _ => format!("N:{}", v.to_bits()),
+    }
+}
+fn cell_letter(c: &str) -> char {
+    if c.starts_with("D:") {
+        if c.contains(":td:") {
+            'T'
+        } else {
+            'D'
+        }
+    } else if c.starts_with("N:") {
+        'O'
+    } else {
+        '?'
+    }
+}
+
+/// one generated workbook: impl (cells read back) vs model (style table) vs oracle (grammar + documented ids)
+fn check_file(case: &StyleCase, drv: &mut Driver, out: &mut Out, shrink: bool) -> bool {
+    let input = case.wire();
+    let model = drv.ask(&case.model_request());
+    let (bytes, values) = case.build();
+    let range = match case.read(bytes) {
+        Ok(r) => r,
+        Err(e) => {
+            if model == "panic" && e.starts_with("panic") {
+                return true; // the model predicts the panic (bracket counter overflow): a C06 matter
+            }
+            out.fail("impl_vs_spec", &format!("file:{}:unreadable", case.kind), &input, &e, &model, "the workbook opens and the sheet is read");
+            return false;
+        }
+    };
+    let mut ok = true;
+    for (i, id) in case.xfs.iter().enumerate() {
+        let exp = case.expected(*id);
+        let m = model.chars().nth(i).unwrap_or('?');
+        for (j, v) in values[i].iter().enumerate() {
+            let got = canon_cell(range.get_value((i as u32, j as u32)));
+            let bad_model = cell_letter(&got) != m;
+            let want = exp.map(|c| expect_cell(c, *v, case.date1904));
+            let bad_spec = want.as_ref().map(|w| *w != got).unwrap_or(false);
+            if !(bad_model || bad_spec) {
+                continue;
+            }
+            ok = false;
+            if shrink {
+                // the smallest workbook showing the same cell: General + this XF, only the definitions of this id
+                let small = StyleCase {
+                    kind: case.kind,
+                    defs: case.defs.iter().filter(|d| d.0 == *id).cloned().collect(),
+                    xfs: vec![0, *id],
+                    date1904: case.date1904,
+                    seed: case.seed,
+                };
+                let mut probe = Out::default();
+                if !check_file(&small, drv, &mut probe, false) {
+                    out.fails.extend(probe.fails);
+                    return false;
+                }
+            }
+            let what = if cell_letter(&got) != want.as_deref().map(cell_letter).unwrap_or(m) {
+                "style-lookup"
+            } else if got.ends_with(if case.date1904 { ":0" } else { ":1" }) {
+                "date-system"
+            } else {
+                "value"
+            };
+            let sig = format!("file:{}:{what}", case.kind);
+            let shown = format!("{input}   [xf {i} = format {id}, cell ({i},{j})]");
+            if bad_spec {
+                out.fail("impl_vs_spec", &sig, &shown, &got, &m.to_string(), want.as_deref().unwrap_or(""));
+            }
+            if bad_model {
+                out.fail("impl_vs_model", &sig, &shown, &got, &m.to_string(), want.as_deref().unwrap_or("(no expectation)"));
+            }
+            return false;
+        }
+        if let Some(c) = exp {
+            if letter(c) as char != m && model != "panic" {
+                out.fail("model_vs_spec", "theorem:style_lookup", &input, "", &model, c);
+            }
+        }
+    }
+    ok
+}
+
+fn gen_style_case(rng: &mut Rng, kind: &'static str) -> StyleCase {
+    let mut defs: Vec<(u16, Fmt)> = vec![];
+    for _ in 0..rng.below(6) {
+        let id = match rng.below(10) {
+            0 => *rng.pick(&[14u16, 20, 22, 46, 47]), // a built-in date id redefined
+            1 => *rng.pick(&[0u16, 1, 9, 37, 49, 5, 44]),
+            2 if !defs.is_empty() => defs[rng.below(defs.len() as u64) as usize].0, // defined twice
+            _ => rng.range(164, 180) as u16,
+        };
+        let mut f = gen_fmt(rng);
+        if rng.chance(1, 2) {
+            f.sections.truncate(1);
+        }
+        defs.push((id, f));
+    }
+    let mut xfs = vec![0u16];
+    for _ in 0..rng.range(1, 9) {
+        xfs.push(match rng.below(10) {
+            0..=4 if !defs.is_empty() => defs[rng.below(defs.len() as u64) as usize].0,
+            5 | 6 => *rng.pick(&[14u16, 15, 16, 17, 18, 19, 20, 21, 22, 45, 46, 47]),
+            7 => *rng.pick(&[0u16, 1, 2, 9, 13, 23, 36, 37, 44, 48, 49, 50, 58]),
+            _ => rng.range(0, 400) as u16,
+        });
+    }
+    StyleCase { kind, defs, xfs, date1904: rng.chance(1, 2), seed: rng.next() }
+}
+
+// ------------------------------------------------------------------------------------------------
+
 /// regression inputs: every defect ever found + documented behaviour + the repo's own unit-test strings
 fn corpus() -> (Vec<Fmt>, Vec<(&'static str, &'static str)>) {
     let lit = |s: &str| Tok::Lit(s.into());
@@ -1060,14 +1377,19 @@ fn main() {
          arbitrary text), expectation = first date/elapsed token of the first section; (4) noise and mutated strings, impl vs \
          model; (5) format_excel_f64/i64 on random bit patterns x {no style, Other, DateTime, TimeDelta} x both date systems. \
          Non-trivial = the text contains at least one of \" \\ _ [ ; (grammar cases) / a distinct wrapped value. \
-         File-level embedding (style tables of xlsx/xls/xlsb) is not part of this run.",
+         (6) file level: generated xlsx/xlsb/xls workbooks with 0-5 custom formats from the grammar (ids 164-180, built-in \
+         ids redefined, ids defined twice), 2-10 cell XFs over custom, built-in and undefined ids, both date systems, every \
+         numeric encoding of the shared writers; per cell: DateTime(value, flavour, date system) iff the XF's format is a \
+         date format (custom definition if the id is defined, else ECMA table). No expectation (impl vs model only) for: \
+         ill-formed or empty custom strings; in xlsb a built-in date id redefined with another class (xlsb consults the \
+         built-in table first).",
     );
     let mut drv = Driver::spawn(&args.driver);
     let threads = std::thread::available_parallelism().map(|n| n.get()).unwrap_or(4).min(if args.thorough() { 16 } else { 8 });
 
     if let Some(r) = &args.replay {
         let mut out = Out::default();
-        let r = r.split("   [text:").next().unwrap().trim();
+        let r = r.split("   [text:").next().unwrap().split("   [xf").next().unwrap().trim();
         let w: Vec<&str> = r.split(' ').collect();
         match w.as_slice() {
             ["gram", d] => {
@@ -1099,6 +1421,13 @@ fn main() {
             }
             ["fmtf64", v, f, d] => check_wrap_f64(v.parse().unwrap(), parse_fmt_arg(f), *d == "1", &mut drv, &mut out),
             ["fmti64", v, f, d] => check_wrap_i64(v.parse().unwrap(), parse_fmt_arg(f), *d == "1", &mut drv, &mut out),
+            w if w.first() == Some(&"file") => {
+                let r2 = r.split("   [xf").next().unwrap().trim();
+                let w2: Vec<&str> = r2.split(' ').collect();
+                let c = StyleCase::from_wire(&w2).expect("bad file replay");
+                check_file(&c, &mut drv, &mut out, false);
+                let _ = w;
+            }
             _ => panic!("unknown replay input {r}"),
         }
         out.cases.push((r.to_string(), true));
@@ -1131,6 +1460,35 @@ fn main() {
         let s = format!("{}h]", "[".repeat(n));
         check_raw(&s, &mut drv, &mut out);
         out.count(&format!("nesting_{n}_{}", impl_detect(&s)));
+    }
+    // file-level regression inputs: the D14 witness as a custom format of each container, D15 (xlsb integer RK cells
+    // with a date style: every xlsb case writes one), a built-in date id redefined, an id defined twice
+    for kind in ["xlsx", "xlsb", "xls"] {
+        let d14 = Fmt { sections: vec![vec![Tok::Lit("Date_".into()), Tok::DateTok("dd".into()), Tok::Num('/'), Tok::DateTok("mm".into())]] };
+        let el = Fmt { sections: vec![vec![Tok::Brk("Red".into()), Tok::Elapsed("h".into()), Tok::Num(':'), Tok::DateTok("mm".into())], vec![Tok::Num('@')]] };
+        let num = Fmt { sections: vec![vec![Tok::Num('0'), Tok::Num('.'), Tok::Num('0'), Tok::Lit(" d".into())]] };
+        for d1904 in [false, true] {
+            let c = StyleCase {
+                kind,
+                defs: vec![(164, d14.clone()), (165, el.clone()), (166, el.clone()), (166, num.clone()), (14, num.clone())],
+                xfs: vec![0, 164, 14, 165, 166, 22, 46, 300, 164],
+                date1904: d1904,
+                seed: 7,
+            };
+            check_file(&c, &mut drv, &mut out, false);
+            out.cases.push((c.wire(), true));
+            out.count("corpus");
+        }
+    }
+    // the minimal replays of the two file-level defects this check found (both fixed):
+    //   xlsx 303c869: formatCode="&apos;" was scanned with its XML escape (a, p -> DateTime);  `0.0" d"` likewise
+    //   xls  0b12e07: FORMULA record with a numeric cached result ignored the XF's date format
+    for w in ["file xlsx 16183923183082473886 1 165=N27 0,165", "file xls 78432869474177924 1 - 0,19",
+              "file xlsx 5 0 170=N30,N2e,N30,L2064 0,170", "file xlsx 5 1 171=L6d26,N30|172=L3c793e,N30 0,171,172"] {
+        let c = StyleCase::from_wire(&w.split(' ').collect::<Vec<_>>()).expect("corpus file case");
+        check_file(&c, &mut drv, &mut out, false);
+        out.cases.push((c.wire(), true));
+        out.count("corpus");
     }
     out.merge_into(&mut rep);
 
@@ -1204,7 +1562,40 @@ fn main() {
         hs.into_iter().map(|h| h.join().unwrap()).collect()
     });
     merge(outs, &mut rep);
-    rep.notes.push("C10 unit level: the oracle is the number-format grammar re-implemented in Rust (render/classify/parse) and the hand-written ECMA-376 id table; the file-level embedding of formats (style tables) is not exercised by this binary yet".into());
+
+    // 6. file level
+    let files = if args.n.map(|n| n > 8).unwrap_or(false) { args.n.unwrap() / 50 + 1 } else { args.count(3_000, 300_000) };
+    let forks: Vec<Rng> = (0..threads).map(|_| rng.fork()).collect();
+    let per = files / threads as u64 + 1;
+    let outs: Vec<Out> = std::thread::scope(|sc| {
+        let hs: Vec<_> = forks
+            .into_iter()
+            .map(|mut rng| {
+                sc.spawn(move || {
+                    let mut drv = Driver::spawn(driver);
+                    let mut out = Out::default();
+                    for i in 0..per {
+                        let kind = ["xlsx", "xlsb", "xls"][(i % 3) as usize];
+                        let c = gen_style_case(&mut rng, kind);
+                        check_file(&c, &mut drv, &mut out, true);
+                        out.count(&format!("file_{kind}"));
+                        out.add_n("file_xfs", c.xfs.len() as u64);
+                        for id in &c.xfs {
+                            out.count(&format!("file_xf_{}", match c.expected(*id) {
+                                Some(cl) => cl,
+                                None => "no-expectation",
+                            }));
+                        }
+                        out.case(c.wire(), !c.defs.is_empty());
+                    }
+                    out
+                })
+            })
+            .collect();
+        hs.into_iter().map(|h| h.join().unwrap()).collect()
+    });
+    merge(outs, &mut rep);
+    rep.notes.push("C10 unit level: the oracle is the number-format grammar re-implemented in Rust (render/classify/parse) and the hand-written ECMA-376 id table; at file level the bytes come from the shared Rust writers (harness/src/xlsxw.rs, xlsbw.rs, xlsw.rs) and the Lean side models the style-table builders over the parsed inputs (ids, strings, XF list), not the container parsing".into());
     rep.write(&args.out);
 }
 
